@@ -286,12 +286,70 @@ def run(ctx):
             s, d, line, want, got), {"correspondence": "gen_conv", "script": [line], "model": want, "observed": got},
             has_input=False)
     glue_stream(ctx, gdmodel)
+    typed_history_stream(ctx)
     if not ok and not mism_prop:
         names = [o[0] for o in ctx.obligations if not o[1]]
         ctx.fail("obligation", "Lean obligations no longer check: " + "; ".join(names)[:400] + " :: " + lr.errors[-600:],
                  {"theorem": names, "lean_errors": lr.errors[-3000:],
                   "searched": "%d inputs over all 144 pairs, no input where the code differs from specConv" % n},
                  has_input=False)
+
+
+def typed_history_stream(ctx):
+    """'intermediate conversions inside derived fields': a value must reach the caller through the field's own type
+    and the caller's type only — never through the type of an earlier call.  Consecutive windows of derived fields are
+    read with changing return types on one handle and compared with the same read on a fresh handle."""
+    import struct
+    from checks.c10 import hx
+    from vlib import streams
+    harness = C.build_harness("gdh", ["gdh.c"])
+    rng = ctx.rng
+    types = ["u8", "i8", "u16", "i16", "i32", "u64", "f32", "f64", "c64", "c128"]
+    chunks, metas = [], []
+    for i in range(40 if ctx.thorough() else 10):
+        n = 40
+        fmt = ["/VERSION 10", "/ENDIAN little", "/ENCODING none", "v RAW INT16 1", "z RAW COMPLEX128 1", "cnt RAW UINT8 1",
+               "mp MPLEX v cnt 1 3", "mz MPLEX z cnt 2 0", "ph PHASE v 1", "li LINCOM 2 v 1 0 cnt 1 0", "bt BIT v 2 9", "wi WINDOW v cnt NE 1", "mu MULTIPLY v cnt"]
+        vdata = b"".join(struct.pack("<h", rng.choice([1091, -300, 257, 70000 % 32768, 5, -1])) for _ in range(n))
+        zdata = b"".join(struct.pack("<dd", rng.choice([13.1, 1e10, 0.1]), rng.choice([1013.3, -7.7, 3e-3])) for _ in range(n))
+        cdata = bytes(rng.choice([0, 1, 2, 3]) for _ in range(n))
+        base = ["reset", "file format " + hx("\n".join(fmt) + "\n"), "file v " + vdata.hex(), "file z " + zdata.hex(), "file cnt " + cdata.hex()]
+        L = list(base) + ["open rdonly"]
+        plan = []
+        for f in ("mp", "mz", "ph", "li", "bt", "wi", "mu"):
+            pos = 0
+            while pos < 30:
+                k = rng.choice([1, 2, 3, 5])
+                t = rng.choice(types)
+                L.append("get %s 0 %d 0 %d %s" % (f, pos, k, t))
+                plan.append((len(L) - 1, f, pos, k, t))
+                pos += k
+        # reference: the same reads, each on a fresh handle
+        refs = []
+        for (_, f, pos, k, t) in plan:
+            L += ["open rdonly", "get %s 0 %d 0 %d %s" % (f, pos, k, t)]
+            refs.append(len(L) - 1)
+        chunks.append(L)
+        metas.append((plan, refs))
+    res = streams.run_chunks(harness, chunks, "c06h")
+    nh = 0
+    for ci, (lines, out, crashed, err) in enumerate(res):
+        if crashed:
+            ctx.fail("input", "library aborted in the typed-history stream: %s" % err[-300:], {"script": lines[:len(out) + 1], "stderr": err[-2500:]}, sig={"pair": "glue-abort"})
+            continue
+        plan, refs = metas[ci]
+        prev = None
+        for (pi, f, pos, k, t), ri in zip(plan, refs):
+            a, b = streams.strip_rl(out[pi])[0], streams.strip_rl(out[ri])[0]
+            nh += 1
+            ctx.distinct.add(("typed-history", f, t))
+            if a != b:
+                ctx.fail("input", "%s after '%s' gives '%s', on a fresh handle '%s': the value went through the type of the earlier call" % (lines[pi], prev, a[:120], b[:120]),
+                         {"script": lines[:6] + [lines[x[0]] for x in plan if x[0] <= pi and x[1] == f]}, sig={"pair": "typed-history", "field": f})
+                break
+            prev = lines[pi]
+    ctx.evaluations += nh
+    ctx.coverage["typed_history_reads"] = nh
 
 
 def replay(ctx, obj):
